@@ -1,6 +1,94 @@
 """C01 - one shell at a time, and its two streams carry the same callback ID."""
+import json, os
 import brokerlib as B
 import vlib
+
+HIMPORTS = "From CRS Require Import Lib.Bytes Lib.Pct Model.Broker Judge.Common Judge.C01H."
+HCLAUSES = {1: "two streams whose path IDs differ (after percent-decoding; nothing else is normalised) were attached together as one shell",
+            2: "a refused HTTP attempt was not ended at once / not announced to the operator / was given I/O",
+            12: "the pair of HTTP requests was refused although the broker model attaches it (path ID -> key glue differs from the model)"}
+H = lambda s: (s if isinstance(s, bytes) else s.encode()).hex()
+VARIANTS = ["%s", "%s%%20", "%%20%s", "%s%%09", "%s%%0A", "%s%%0D%%0A", "%s%%00", "%s%%C2%%A0", "%s%%E2%%80%%83", "%%0B%s", "%s+", "%s%%2F", "%s.", "%s%%2520"]
+
+
+def http_pairs(rng, tier):
+    """(first, second, first_is_in): escaped path elements; a few equal after decoding, most differing only by something a careless
+    normalisation (trimming, case folding, prefix comparison, double decoding) would erase."""
+    pairs = []
+    for k, v in enumerate(VARIANTS):
+        base = "k%dy" % k
+        a, b = base, v % base
+        pairs.append((a, b, k % 2 == 0)); pairs.append((b, a, k % 2 == 1))
+    pairs += [("k%33y", "k3y", True), ("%6Bey", "key", False), ("Key", "key", True), ("key", "KEY", False), ("ke", "key", True), ("key", "ke", False),
+              ("same", "same", True), ("same%20", "same%20", False), ("a%2Fb", "a%2Fb", True), ("a%2Fb", "a%252Fb", False)]
+    for _ in range(0 if tier == "quick" else 60):
+        base = "".join(rng.choice("abcxyz019") for _ in range(rng.randrange(1, 6)))
+        v = rng.choice(VARIANTS)
+        x, y = (base, v % base) if rng.randrange(2) else (v % base, base)
+        pairs.append((x, y, bool(rng.randrange(2))))
+    return pairs
+
+
+def http_stream(run):
+    ok, binp, log = vlib.build_overlay_test(run.rundir, "internal/hsrv", go="go")
+    run.checker_cmds.append("go test -c -tags verif -overlay (harness/overlay/hsrv): real Server, /i/{id} and /o/{id} requests over real TLS")
+    if not ok:
+        run.oblige("hsrv harness builds against /repo", False, log)
+        return
+    pairs = http_pairs(run.rng, run.tier)
+    IN = lambda i: H("GET /i/%s HTTP/1.1\r\nHost: h\r\n\r\n" % i)
+    OUT = lambda i: H("POST /o/%s HTTP/1.1\r\nHost: h\r\nTransfer-Encoding: chunked\r\n\r\n" % i)
+    groups = [pairs[k::8] for k in range(8)]
+    cases = []
+    for g in groups:
+        acts = []
+        for a, b, first_in in g:
+            acts += [{"a": "open", "id": "p1", "req": (IN if first_in else OUT)(a), "quiet_ms": 80},
+                     {"a": "open", "id": "p2", "req": (OUT if first_in else IN)(b), "quiet_ms": 150},
+                     {"a": "line", "l": H("LINE-FOR-SHELL"), "quiet_ms": 60},
+                     # (net/http drains a request body before answering: the refused output's response is complete once its body is)
+                     {"a": "send", "id": "p2" if first_in else "p1", "d": H("7\r\nOUTPUT!\r\n" + ("0\r\n\r\n" if first_in else "")), "quiet_ms": 80},
+                     {"a": "peek", "id": "p2", "quiet_ms": 10},
+                     {"a": "close", "id": "p2", "quiet_ms": 100}, {"a": "close", "id": "p1", "quiet_ms": 250}]
+        cases.append({"i": len(cases), "cfg": {}, "acts": acts})
+    import concurrent.futures as cf
+    def one(k):
+        return vlib.run_overlay_test(binp, "TestVerifHsrv", [cases[k]], run.rundir, tag="c01h_%d" % k, env=dict(os.environ, VERIF_TMP=run.rundir), timeout=300)
+    with cf.ThreadPoolExecutor(max_workers=8) as ex:
+        outs = list(ex.map(one, range(len(cases))))
+    if any(o[1] or not o[0] for o in outs):
+        run.oblige("hsrv harness ran the HTTP ID pairs", False, str([o[1] for o in outs][:2]))
+        return
+    inputs, results = [], []
+    for g, o in zip(groups, outs):
+        r = o[0][0]
+        consts = r.get("consts", {})
+        acts = r.get("acts") or []
+        for n, (a, b, first_in) in enumerate(g):
+            A = acts[7 * n:7 * n + 7]
+            lines = lambda x: [(bytes.fromhex(l["line"]).decode(errors="replace"), l.get("plain")) for l in x.get("och") or []]
+            ready = any(consts.get("ready", "Shell is ready") in l for l, _ in lines(A[1]))
+            told = any("Rejected" in l for l, p in lines(A[1]) if not p)
+            # I/O of the second request: as the input it must get no line; as the output nothing it sends is displayed
+            second_peek = bytes.fromhex(A[4].get("got", "") or "")
+            if first_in:
+                io = any(p and "OUTPUT!" in l for x in A[3:5] for l, p in lines(x))
+            else:
+                io = b"LINE-FOR-SHELL" in second_peek
+            ended = bool(A[4].get("ended"))
+            inputs.append({"first": ("/i/" if first_in else "/o/") + a, "second": ("/o/" if first_in else "/i/") + b})
+            results.append({"a": a, "b": b, "first_in": first_in, "paired": ready, "told": told, "io": io, "ended": ended})
+    B_ = lambda x: str(bool(x)).lower()
+    vlib.judge_stream(run, "httpids", HIMPORTS, "hcase", inputs, results,
+                      lambda i, r: "mkh %s %s %s %s %s %s %s" % (vlib.coq_str(r["a"].encode()), vlib.coq_str(r["b"].encode()), B_(r["first_in"]), B_(r["paired"]),
+                                                                 B_(r["told"]), B_(r["io"]), B_(r["ended"])),
+                      HCLAUSES, (0, 1),
+                      "pairs of real HTTPS requests /i/{a} then /o/{b} (and the reverse) on a real Server, where b differs from a only by what a careless "
+                      "normalisation would erase (trailing/leading space, tab, CR/LF, NUL, NBSP, em-space, vertical tab, '+', encoded slash, dot, "
+                      "double encoding, case, prefix), plus pairs equal only after percent-decoding; the expected outcome is computed by running the broker "
+                      "model on the two admissions with key = percent-decoded path element; non-trivial = the two escaped IDs differ",
+                      key_fn=lambda i: i["first"] + " " + i["second"])
+
 
 CLAUSES = {1: "C01 monitor failed on the implementation's trace: two streams of one direction attached, attached streams with different IDs, "
               "or a refused attempt that was not ended at once / not announced / given I/O"}
@@ -23,11 +111,13 @@ def check(run):
                  "random histories (length 6-40) of /i /o /io attempts with equal / prefix-related / case-variant / empty / NUL / long IDs, "
                  "endings (EOF, errors, client cancel, input closed), releases in every order, lines, output, shutdown; biased to stay near "
                  "full attachment and inside tear-down windows")
+    http_stream(run)
     run.assumptions += ["sync.Mutex gives the atomicity the model's step granularity assumes; subtle.ConstantTimeCompare = byte equality",
                         "a client cannot send the 1024-byte random bidirectional sentinel as an ID",
-                        "HTTP glue (path id -> key, /i/ with empty id never reaching the broker) is outside this check"]
+                        "net/http's ServeMux percent-decodes the {id} path element (PathValue); an empty element is not routed to the handlers"]
     run.trusted += ["harness/overlay/iobroker (hook-gated synctest harness)", "props/brokerlib.py generators and projection",
-                    "hand-written model coq/Model/Broker.v; tie = this correspondence"]
+                    "hand-written model coq/Model/Broker.v; tie = this correspondence",
+                    "harness/overlay/hsrv and coq/Lib/Pct.v (percent-decoding) for the HTTP-surface stream"]
 
 
 def replay(run, path):
